@@ -284,6 +284,25 @@ theorem WakeInv.step {s : State} (h : WakeInv s) (hw : WorkerInv s) (hl : LockIn
           exact WakeInv.spawn h1 o1 o2 _
         · exact h1.of_eq rfl rfl rfl rfl rfl rfl
       · exact h1
+  | executeF prio cb =>
+    simp only [valid, Bool.and_eq_true, Bool.not_eq_true'] at hv
+    have hlock := hv.1.1.1.1
+    simp only [Tbox.C05.step]
+    split
+    · exact h
+    · constructor
+      · intro hl'; simp only at hl'; rw [hlock] at hl'; cases hl'
+      · intro t ht
+        rcases List.mem_append.1 ht with a | a
+        · exact h.lvlOk t a
+        · simp at a; subst a; exact levelOf_lt prio
+      · intro hs
+        rcases h.K hs with a | a
+        · left
+          show (s.undo ++ [_]).length ≤ nWoken s + (s.pend + 1)
+          simp only [List.length_append, List.length_cons, List.length_nil]
+          omega
+        · right; exact a
   | cancel id =>
     simp only [valid, Bool.and_eq_true, Bool.not_eq_true'] at hv
     simp only [Tbox.C05.step]
